@@ -4,6 +4,7 @@ from concurrent.futures import ThreadPoolExecutor
 from .. import core, pipe, metagen as MG
 from .c03 import report_compile_failures
 
+from ..core import COMMON_DIMENSIONS
 PROP = "C15"
 SIZES = dict(quick=dict(sample=250, mcV=2), thorough=dict(sample=4000, mcV=3))
 
@@ -56,6 +57,8 @@ def run(tier, seed, rep):
                        "suffixed forms)/bool values; every key declared anywhere in the enum plus case/prefix/suffix variations and random "
                        "keys through get_str/get_int/get_bool on every variant; integers are compared as canonical decimal tokens; "
                        "distinct_nontrivial = lookups that returned Some")
+    rep.cov["rule"] += ' + literal forms with radix and suffix; non-ASCII keys; same keys with values that read the same but differ in type; a 300-variant enum'
+    rep.cov["rule"] += COMMON_DIMENSIONS
     rep.cov["samples"] = [dict(def_=e["def"], variant=e["i"], key=core.uncp(e["keys"][0]), str=e["strs"][0], int=e["ints"][0], bool=e["bools"][0]) for e in pe[:3]]
     rep.assumptions += ["integer values are opaque canonical decimal tokens in the specification (TLC integers are 32-bit)"]
     return rep
